@@ -217,6 +217,10 @@ class Canon:
                 fam = L.family_of_slice(lo, hi)
                 if fam is not None:
                     return fam, "ALL"
+                # both bounds are known linear forms but the span is no documented family: a
+                # definite mismatch (not an unmodelled index)
+                from .layout import lf_str
+                return f"MISALIGNED[{lf_str(lo)}:{lf_str(hi)}]", "ALL"
             if i[1] == C(None) and i[2] == C(None):
                 return "ROW", "ALL"
             return "?slice", "ALL"
@@ -227,6 +231,8 @@ class Canon:
     def _form(self, t):
         if t[0] == "clsattr" and t[1] == "HostVector" and t[2] in self.layout.forms:
             return self.layout.forms[t[2]]
+        if t[0] == "clsattr" and t[1] == "HostVector" and t[2] in self.layout.symbols:
+            return {self.layout.symbols[t[2]]: 1}
         if t[0] == "const" and isinstance(t[1], int):
             return lf(t[1])
         if t[0] == "bin" and t[1] in ("+", "-"):
